@@ -2699,6 +2699,26 @@ def _deferring_params(f):
                     and any(isinstance(x, ast.Name) and x.id == "self"
                             for x in ast.walk(b.value)):
                 out[n.test.left.id] = dotted(b.value)
+    # `x = self.<setting> if p is None else p` / `p if p is not None else ..`
+    for n in ast.walk(f.node):
+        if not (isinstance(n, ast.IfExp) and isinstance(n.test, ast.Compare)
+                and len(n.test.ops) == 1
+                and isinstance(n.test.left, ast.Name)
+                and n.test.left.id in params
+                and isinstance(n.test.comparators[0], ast.Constant)
+                and n.test.comparators[0].value is None):
+            continue
+        p = n.test.left.id
+        if isinstance(n.test.ops[0], ast.Is):
+            dflt, other = n.body, n.orelse
+        elif isinstance(n.test.ops[0], ast.IsNot):
+            dflt, other = n.orelse, n.body
+        else:
+            continue
+        if isinstance(other, ast.Name) and other.id == p and any(
+                isinstance(x, ast.Name) and x.id == "self"
+                for x in ast.walk(dflt)):
+            out[p] = dotted(dflt)
     return out
 
 
@@ -2833,45 +2853,50 @@ def rule_resplit1(ctx, rel):
     for f in ctx.p.all_functions:
         if f.module is not mod:
             continue
-        defs = single_defs(f.node)
-        for rt in ast.walk(f.node):
-            if not (isinstance(rt, ast.Return) and rt.value is not None):
+        parents = f.module.parents
+
+        def state(node, depth=0):
+            """'filtered' | 'raw' (returned as it is) | 'other'"""
+            par = parents.get(node)
+            if isinstance(par, ast.comprehension) and par.iter is node:
+                return "filtered" if par.ifs else "other"
+            if isinstance(par, ast.Call) and dotted(par.func) == "filter":
+                return "filtered"
+            if isinstance(par, ast.Call) and dotted(par.func) in (
+                    "list", "tuple") and par.args and par.args[0] is node:
+                return state(par, depth)
+            if isinstance(par, ast.IfExp) and node is not par.test:
+                return state(par, depth)
+            if isinstance(par, ast.Return):
+                return "raw"
+            if isinstance(par, ast.Assign) and len(par.targets) == 1 \
+                    and isinstance(par.targets[0], ast.Name) and depth < 3:
+                nm = par.targets[0].id
+                uses = [x for x in ast.walk(f.node)
+                        if isinstance(x, ast.Name) and x.id == nm
+                        and isinstance(x.ctx, ast.Load)]
+                st = [state(u, depth + 1) for u in uses]
+                if "raw" in st:
+                    return "raw"
+                if st and all(x == "filtered" for x in st):
+                    return "filtered"
+                return "other"
+            return "other"
+        for c in ast.walk(f.node):
+            if not (isinstance(c, ast.Call) and dotted(c.func) == "re.split"):
                 continue
-            v = rt.value
-            hops = 0
-            while isinstance(v, ast.Name) and v.id in defs and hops < 4:
-                v = defs[v.id]
-                hops += 1
-            splits = [c for c in ast.walk(v) if isinstance(c, ast.Call)
-                      and dotted(c.func) in ("re.split",)]
-            if not splits:
+            st = state(c)
+            if st == "other":
                 continue
             n += 1
             r.analysed(f)
-            filtered = False
-            # [t for t in re.split(..) if t] / if t != "" / if len(t) > 0
-            if isinstance(v, (ast.ListComp, ast.GeneratorExp)) \
-                    and any(g.ifs for g in v.generators):
-                filtered = True
-            if isinstance(v, ast.Call) and dotted(v.func) in ("list", "tuple") \
-                    and v.args:
-                inner = v.args[0]
-                if isinstance(inner, ast.Call) and dotted(inner.func) == \
-                        "filter":
-                    filtered = True
-                if isinstance(inner, (ast.ListComp, ast.GeneratorExp)) \
-                        and any(g.ifs for g in inner.generators):
-                    filtered = True
-            if isinstance(v, ast.Call) and dotted(v.func) == "filter":
-                filtered = True
-            # re.findall-style rewrite has no re.split and is not judged
-            if filtered:
-                r.ok("RESPLIT1", f"{f.qualname}:re.split", loc(f, rt),
-                     dotted(v)[:80], "empty tokens are dropped")
+            if st == "filtered":
+                r.ok("RESPLIT1", f"{f.qualname}:re.split", loc(f, c),
+                     dotted(c)[:80], "empty tokens are dropped")
             else:
                 r.violation(
-                    "RESPLIT1", f"{f.fq}|re.split", loc(f, rt),
-                    dotted(v)[:100],
+                    "RESPLIT1", f"{f.fq}|re.split", loc(f, c),
+                    dotted(c)[:100],
                     f"{f.qualname} returns the raw result of re.split: for "
                     "the empty word it is [''] and for '(a1)(b1)' it is "
                     "['', 'a1', '', 'b1', '']; _word_value looks every "
